@@ -89,18 +89,10 @@ struct HashTable {
 
     HashTable &operator=(const HashTable &src) {
         if (this != &src) {
-            SizeT      *ht      = getHashTable();
-            HItem      *storage = Storage();
-            const SizeT size    = Size();
-
-            clearHashTable();
-            setSize(0);
-            setCapacity(0);
-
-            copyTable(src);
-
-            Memory::Dispose(storage, (storage + size));
-            Memory::Deallocate(ht);
+            // Complete the copy before this table changes: src may live inside one of this
+            // table's own values, and this table may live inside one of src's.
+            HashTable copy{src};
+            *this = Memory::Move(copy);
         }
 
         return *this;
